@@ -531,6 +531,76 @@ func checkC11(c *Ctx) {
 		})
 		c.Floor("queries_made_while_the_watcher_was_held_in_a_scan", 10)
 	}
+	// a definition that overrides another one goes away (unlinked, renamed away, moved
+	// out, made invalid) as the last thing that happens: the definition it had been
+	// hiding is back
+	if c.replayCase == "" || strings.HasPrefix(c.replayCase, "unshadow") {
+		c.RunCases("unshadow", c.pick(40, 600), 4, func(cs *Case) {
+			r := cs.R
+			root := filepath.Join(c.Scratch, sanitize(cs.Name))
+			anchor, low, high := filepath.Join(root, "anchor"), filepath.Join(root, "low"), filepath.Join(root, "high")
+			for _, d := range []string{anchor, low, high, filepath.Join(root, "elsewhere")} {
+				must(os.MkdirAll(d, 0o755))
+			}
+			defer os.RemoveAll(root)
+			mk := func(from string, devs ...string) []byte {
+				s := `{"cdiVersion":"0.6.0","kind":"vendor.com/gpu","devices":[`
+				for i, d := range devs {
+					if i > 0 {
+						s += ","
+					}
+					s += fmt.Sprintf(`{"name":"%s","containerEdits":{"env":["FROM=%s"]}}`, d, from)
+				}
+				return []byte(s + "]}")
+			}
+			must(os.WriteFile(filepath.Join(low, "l.json"), mk("low", "dev0", "dev1"), 0o644))
+			if chance(r, 50) {
+				must(os.WriteFile(filepath.Join(low, "other.yaml"), []byte("cdiVersion: 0.6.0\nkind: acme.io/net\ndevices:\n- name: n0\n  containerEdits:\n    env: [\"N=0\"]\n"), 0o644))
+			}
+			hf := filepath.Join(high, pickStr(r, "h.json", "a.json", "z.yaml"))
+			must(os.WriteFile(hf, mk("high", "dev0"), 0o644))
+			all := []string{anchor, low, high}
+			a, err := newAutoCache(root, anchor, all)
+			if err != nil {
+				c.Inconclusive("no-inotify")
+				return
+			}
+			defer a.Close()
+			if d := a.C.GetDevice("vendor.com/gpu=dev0"); d == nil || len(d.ContainerEdits.Env) != 1 || d.ContainerEdits.Env[0] != "FROM=high" || len(a.C.GetErrors()) > 0 {
+				cs.Violation("no-convergence", map[string]string{"last_op": "initial"}, fmt.Sprintf("vendor.com/gpu=dev0 is defined in both directories and does not resolve to the higher-priority one (errors %v)", a.C.GetErrors()), nil)
+				return
+			}
+			how := pickStr(r, "unlink", "unlink", "rename-away", "rename-to-non-spec", "truncate")
+			switch how {
+			case "unlink":
+				must(os.Remove(hf))
+			case "rename-away":
+				must(os.Rename(hf, filepath.Join(root, "elsewhere", "gone.json")))
+			case "rename-to-non-spec":
+				must(os.Rename(hf, hf+".bak"))
+			default:
+				must(os.Truncate(hf, 0))
+			}
+			c.Count("overriding_definitions_taken_away:"+how, 1)
+			if !a.Quiesce() {
+				c.Inconclusive("quiesce-timeout")
+				return
+			}
+			fresh, _ := cdi.NewCache(cdi.WithSpecDirs(all...), cdi.WithAutoRefresh(false))
+			want, _ := cacheState(fresh, all)
+			got, _ := cacheState(a.C, all)
+			if got != want {
+				if !a.Quiesce() {
+					c.Inconclusive("quiesce-timeout")
+					return
+				}
+				got, _ = cacheState(a.C, all)
+			}
+			if got != want {
+				cs.Violation("no-convergence", map[string]string{"last_op": how, "observed": "queries", "shape": "override-taken-away"}, fmt.Sprintf("the higher-priority definition of vendor.com/gpu=dev0 was taken away (%s) as the last change; after the watcher drained, two rounds of queries still differ from a fresh cache\n cache %s\n fresh %s", how, clip(got, 1200), clip(want, 1200)), map[string]any{"events": a.EventTrace()})
+			}
+		})
+	}
 	c.RunCases("hist", c.pick(700, 12000), 4, func(cs *Case) {
 		r := cs.R
 		root := filepath.Join(c.Scratch, sanitize(cs.Name))
